@@ -54,11 +54,12 @@ type qualEngine struct {
 	fldStore map[*types.Var][]*ssa.Store
 	why      map[ssa.Value]string // first unsanitized source found below a value
 	depth    int
+	dyn      map[*ssa.Function]bool // function has callers other than its static call sites (VTA)
 }
 
 func (c *Ctx) newQualEngine() *qualEngine {
 	e := &qualEngine{c: c, strMemo: map[ssa.Value]qual{}, strBusy: map[ssa.Value]bool{}, mapMemo: map[ssa.Value]mapQual{}, mapBusy: map[ssa.Value]bool{},
-		fldStore: map[*types.Var][]*ssa.Store{}, why: map[ssa.Value]string{}}
+		fldStore: map[*types.Var][]*ssa.Store{}, why: map[ssa.Value]string{}, dyn: map[*ssa.Function]bool{}}
 	e.sanIface = c.iface("", "Sanitizer")
 	e.sites = c.staticCallSites()
 	for _, fn := range c.AllFuncs {
@@ -122,6 +123,19 @@ func (e *qualEngine) isAPIEntry(fn *ssa.Function) bool {
 	}
 	if len(e.sites[fn]) == 0 {
 		return true // only reachable from outside / through interfaces
+	}
+	if dyn, ok := e.dyn[fn]; ok {
+		if dyn {
+			return true
+		}
+	} else {
+		// closed world: a function that can also be reached through an interface or a function
+		// value receives arguments the static call sites do not show
+		d := len(e.c.dynamicCallers(fn)) > 0
+		e.dyn[fn] = d
+		if d {
+			return true
+		}
 	}
 	obj := fn.Object()
 	return obj != nil && obj.Exported() && fn.Signature.Recv() == nil
